@@ -707,6 +707,18 @@ class Lowering:
         as in clang's type string, or a mangled name"""
         if spec in self.funcs_by_mangled:
             return spec
+        if spec.startswith('flat:'):
+            want = spec[5:]
+            for mangled, decls in self.funcs_by_mangled.items():
+                sc = decls[0].get('_scope', ())
+                if not sc or sc[0] != 'gdstk':
+                    continue
+                try:
+                    if self.flat_fn_name(mangled) == want:
+                        return mangled
+                except LoweringError:
+                    continue
+            raise LoweringError('no function with flat name %r' % want)
         m = re.match(r'^([^()]+?)(\((.*)\)( const)?)?$', spec)
         qn = m.group(1).strip()
         sig = m.group(2)
